@@ -57,6 +57,15 @@ CLAIMED = {
  'C07': ("coverage-guided fuzzing (libFuzzer, 3 targets: TZif bytes, TZ-string bytes, structured API via arbitrary) with semantic oracles inside the targets + structured enumeration (all truncations / hostile header counts / byte flips of every real file) + counting allocator; two build configurations",
          "Exploration: libFuzzer campaigns from committed seed corpora with a fixed number of runs on three targets whose bodies also run the C08 reference decoding, the C09 recogniser and the owned-vs-borrowed constructor comparison; coverage-independent enumeration of every truncation point and every hostile header count of all 894 real files and byte flips of a sample; random structured API arguments biased to integer extremes; every public query on every accepted zone. A panic, overflow trap, out-of-bounds, abort, or heap use above 16*len+4 KiB is a violation. Run with overflow checks/debug assertions on and (structured half) off.",
          "No 32-bit target available; libFuzzer campaigns are only approximately reproducible from the seed (the saved artifact is the reproducible unit); time-outs are inconclusive.", "DESIGN.md §5 C07"),
+ 'C10': ("differential testing against two independent implementations (glibc localtime_r, CPython zoneinfo) on every file of the vendored tzdata snapshot: generated query lists (every transition -1/0/+1, random and footer-governed instants, local times around transitions) answered by tz-rs and by reference servers reading the same bytes; random TZ strings vs glibc's parser",
+         "Exploration: (offset, abbreviation) at every recorded transition -1/0/+1, random instants 1900-2500 and footer-governed instants of all 447 main-tree files vs glibc and zoneinfo, and of all 447 right/ files vs glibc (through the leap model); isdst and broken-down fields vs glibc; mktime instant sets for local times within 3 h of post-1970 transitions vs the sets implied by both references; generated TZ strings vs glibc's TZ-environment parser inside the domain where glibc is itself right.",
+         "Agreement is with glibc and CPython as installed, on tzdata 2025b as vendored; rule-less files after their last transition are excluded (tz-rs must answer NoAvailableLocalTimeType there).", "DESIGN.md §5 C10"),
+ 'C15': ("generated multi-threaded programs (op sequences over shared zones; sequential vs reversed / permuted / 2-16 threads / child process with perturbed environment) with per-op result digests; compile-time auto-trait + Freeze assertions; auxiliary (non-PBT) static audit",
+         "Exploration of the observable half: every operation of each generated program must return, in any order, on any of 2..16 concurrently running threads sharing the zones by reference, and in a process with TZ/TZDIR/LANG/cwd changed, exactly what it returns in the plain sequential run (digest of the complete Debug rendering). Settings operations use four virtual file systems giving the same names different contents, so a cache keyed on too little collides. Compile-time: Send + Sync + 'static + Freeze for every public type. The schedule is the OS's: rare interleavings and behaviour-preserving global state are out of reach; an auxiliary symbol/token audit (labelled non-PBT) covers the latter.",
+         "OS-chosen schedules; digest = hash of Debug output; auxiliary audit is not the deciding evidence.", "DESIGN.md §5 C15"),
+ 'C19': ("differential testing across build configurations: one generated corpus through a probe built with tz-rs features {}, {alloc}, {alloc,std} and through the std harness; transcript equality; build success per configuration",
+         "Exploration: a generated corpus of cases (zones, instants, civil times, nanosecond counts, buffer lengths) is run through the allocation-free API in three separately built feature configurations and in the harness; per-case transcripts (incl. Display with width/precision/fill) must be identical, and every configuration must build.",
+         "Host-only: no bare-metal target installed; the no_std build is checked by compiling tz-rs as a no_std crate.", "DESIGN.md §5 C19"),
 }
 
 def entry(pid):
@@ -88,6 +97,9 @@ manifest = {
     },
     "engines": [
         {"name": "libfuzzer", "path": "/verif/fuzz", "serves_properties": ["C07"], "kind_free_text": "cargo-fuzz crate with three libFuzzer targets (tzif, tzstr, api) whose bodies live in vlib::fuzz_entry; driven by checks/C07.sh"},
+        {"name": "references", "path": "/verif/refs", "serves_properties": ["C10"], "kind_free_text": "glibc_ref.c (localtime_r server) and zoneinfo_ref.py (CPython zoneinfo server): independent implementations used as differential oracles"},
+        {"name": "cfgprobe", "path": "/verif/cfgprobe", "serves_properties": ["C19"], "kind_free_text": "probe binary built three times against tz-rs with features {}, {alloc}, {alloc,std}"},
+        {"name": "autotraits", "path": "/verif/autotraits", "serves_properties": ["C15"], "kind_free_text": "compile-time Send + Sync + 'static + Freeze assertions for every public type (nightly)"},
         {"name": "vcheck", "path": "/verif/vlib", "serves_properties": sorted(CLAIMED), "kind_free_text": "Rust harness: independent oracles + enumerations + proptest (sharded, seeded, shrinking) + replay; built against /repo by path dependency on every ./check"},
     ],
     "checks": [entry(p['id']) for p in props if p['id'] in CLAIMED],
